@@ -111,6 +111,7 @@ class TolFlow:
         self.visited: Dict[Tuple[str, FrozenSet[str]], bool] = {}
         self.unresolved: List[Tuple[Func, str]] = []
         self.funcs_seen: Set[str] = set()
+        self._cur_func = None
         self.repo_close_defaults = {}
         for qn in REPO_CLOSE:
             f = self.ix.funcs.get(qn)
@@ -121,10 +122,37 @@ class TolFlow:
                     a=pos.index("a"), b=pos.index("b"), rtol=pos.index("rtol"), atol=pos.index("atol"),
                     drtol=d.get("rtol"), datol=d.get("atol"))
 
-    def tainted_expr(self, e: ast.AST, tainted: Set[str]) -> bool:
+    def tainted_expr(self, e: ast.AST, tainted: Set[str], func: Optional[Func] = None) -> bool:
         if isinstance(e, ast.Name):
             return e.id in tainted
-        return defaulting_target(e, tainted)
+        if defaulting_target(e, tainted):
+            return True
+        # `_atol_or_default(atol)`: a private helper that only hands back the caller's tolerance or the global default
+        if func is not None and isinstance(e, ast.Call) and not e.keywords and len(e.args) == 1 and isinstance(e.args[0], ast.Name) \
+                and e.args[0].id in tainted:
+            for t in self.res.resolve_call(func, e, self.res.env(func), by_name=False):
+                if isinstance(t, Func) and self.is_default_helper(t):
+                    return True
+        return False
+
+    def is_default_helper(self, t: Func) -> bool:
+        """every return of t is its (single) parameter, Settings.get_atol(), or the defaulting expression over the parameter"""
+        ps = [p for p in t.params if p != t.self_name]
+        if len(ps) != 1:
+            return False
+        rets = [r for r in own_nodes(t.node) if isinstance(r, ast.Return)]
+        if not rets:
+            return False
+        for r in rets:
+            v = r.value
+            if v is None or not ((isinstance(v, ast.Name) and v.id == ps[0]) or is_get_atol(v) or defaulting_target(v, {ps[0]})):
+                return False
+        for n in own_nodes(t.node):
+            if isinstance(n, (ast.Assign, ast.AugAssign, ast.AnnAssign)):
+                tg = n.targets if isinstance(n, ast.Assign) else [n.target]
+                if any(isinstance(x, ast.Name) and x.id == ps[0] for x in tg) and not (isinstance(n, ast.Assign) and statement_default(t, n, ps[0])):
+                    return False
+        return True
 
     def local_taint(self, func: Func, params: Set[str]) -> Set[str]:
         tainted = set(params)
@@ -133,14 +161,14 @@ class TolFlow:
             changed = False
             for n in own_nodes(func.node):
                 if isinstance(n, ast.Assign) and len(n.targets) == 1 and isinstance(n.targets[0], ast.Name):
-                    if self.tainted_expr(n.value, tainted) and n.targets[0].id not in tainted:
+                    if self.tainted_expr(n.value, tainted, func) and n.targets[0].id not in tainted:
                         tainted.add(n.targets[0].id)
                         changed = True
         # a tainted name that is ever re-bound to something else loses its meaning
         for n in own_nodes(func.node):
             if isinstance(n, ast.Assign):
                 for t in n.targets:
-                    if isinstance(t, ast.Name) and t.id in tainted and not self.tainted_expr(n.value, tainted):
+                    if isinstance(t, ast.Name) and t.id in tainted and not self.tainted_expr(n.value, tainted, func):
                         if statement_default(func, n, t.id):
                             continue
                         self.uses.append(TaintUse(func, n, (), "tolerance variable '%s' re-bound to %s" % (t.id, unparse(n.value))))
@@ -163,6 +191,7 @@ class TolFlow:
         self.funcs_seen.add(func.qualname)
         chain = chain + (func.qualname,)
         tainted = self.local_taint(func, params)
+        self._cur_func = func
         accounted: Set[int] = set()  # ids of Name nodes whose use is a recognised forwarding
         env = self.res.env(func)
         for n in own_nodes(func.node):
@@ -219,6 +248,7 @@ class TolFlow:
         for _, m in self.res.property_reads(func):
             self.analyse(m, set(), chain, depth + 1)
         # remaining uses of tainted names
+        self._cur_func = func
         for n in own_nodes(func.node):
             if isinstance(n, ast.Name) and isinstance(n.ctx, ast.Load) and n.id in tainted and id(n) not in accounted:
                 p = getattr(n, "_parent", None)
@@ -239,6 +269,8 @@ class TolFlow:
                 and const(p.comparators[0]) is None and p.left is n:
             return True
         if isinstance(p, ast.Assign) and p.value is n:
+            return True
+        if isinstance(p, ast.Return) and p.value is n and self._cur_func is not None and self.is_default_helper(self._cur_func):
             return True
         if isinstance(p, (ast.JoinedStr, ast.FormattedValue)):
             return True
